@@ -93,6 +93,7 @@ def fingerprint_inputs(parts_arg):
                                         int(r["pitch"])) for r in na)
             # the same table in its own (least-common-multiple) divisions, as the merged part states them
             fp["score_level_divs"] = sorted((int(r["onset_div"]), int(r["duration_div"]), int(r["pitch"])) for r in na)
+            fp["score_level_divs_pq"] = sorted({int(r["divs_pq"]) for r in na})
         except Exception:
             fp["score_level"] = None
     return fp
@@ -181,9 +182,15 @@ def check_merge(ctx, fp, parts_arg, reassign, result):
         if got != fp["score_level"]:
             ctx.violation("sounding-notes-differ-from-score-level-note-array", f"{len(got)} vs {len(fp['score_level'])} notes", w)
         elif fp.get("score_level_divs") is not None:
+            # one table, one unit: every row of the score-level array is in the same divisions (the least common multiple of the
+            # parts that have notes; a part without notes need not count), and in that unit it equals the merged part
+            unit = fp["score_level_divs_pq"]
             got_d = sorted((int(o), int(d), int(p)) for o, d, p in sounding(result))
+            if len(unit) == 1 and lcm % unit[0] == 0:
+                k_ = lcm // unit[0]
+                fp["score_level_divs"] = sorted((o * k_, d * k_, p) for o, d, p in fp["score_level_divs"])
             ctx.check()
-            if got_d != fp["score_level_divs"]:
+            if len(unit) != 1 or got_d != fp["score_level_divs"]:
                 k = next((i for i, (a, b) in enumerate(zip(got_d, fp["score_level_divs"])) if a != b), 0)
                 ctx.violation("merged-part-and-score-level-note-array-in-different-divisions",
                               f"merged part (lcm {lcm}) has {got_d[k]}, the score-level note array {fp['score_level_divs'][k]} (onset, duration in divisions, pitch)", w)
